@@ -39,7 +39,8 @@ Section LoopFacts.
 
   Definition partial1 (k : nat) (t : float) (o : step_outcome) : list stamped :=
     match o with
-    | StepOk => block1 k t
+    | StepOk | PanicInFinishObserver _ _ => block1 k t
+    | PanicInStartObserver _ _ => [(EvStartIter k, t)]
     | PanicInTry _ => [(EvStartIter k, t); (ExplorerTry k, t)]
     | PanicInCoolBefore _ => [(EvStartIter k, t); (ExplorerTry k, t); (ExplorerCool k, t)]
     | PanicInCoolAfter _ => [(EvStartIter k, t); (ExplorerTry k, t); (ExplorerCool k, t); (EvCooling k, cool a t)]
@@ -47,7 +48,7 @@ Section LoopFacts.
 
   Definition temp1 (t : float) (o : step_outcome) : float :=
     match o with
-    | StepOk | PanicInCoolAfter _ => cool a t
+    | StepOk | PanicInCoolAfter _ | PanicInFinishObserver _ _ => cool a t
     | _ => t
     end.
 
@@ -159,48 +160,99 @@ Qed.
 
 Definition prefix (T0 : float) : list stamped := [(ExplorerInit, T0); (EvStart, T0)].
 
-(* no fault in iterations 1..N *)
+(* the panic the recovery handler sees: TearDown's, if TearDown panics, else the one in flight *)
+Definition in_flight (td : option payload) (p : payload) : payload :=
+  match td with Some q => q | None => p end.
+
+Definition full_trace (N : nat) (T0 a : float) : list stamped :=
+  prefix T0 ++ flat_map (iteration_block a T0) (seq 1 N)
+    ++ [(EvFinish N, temp_after a T0 N); (ExplorerTearDown, temp_after a T0 N)].
+
+(* no fault in iterations 1..N; TearDown may panic *)
+Theorem anneal_ok_run_td : forall td N script T0 a,
+  (forall j, 1 <= j <= N -> script j = StepOk) ->
+  anneal_gen SimpleAnnealer (mkFaults InitOk None None td) 0 N script T0 a =
+    recover_handler true None (full_trace N T0 a) N (temp_after a T0 N)
+      (match td with Some q => Panicking N q | None => Returned end).
+Proof.
+  intros td N script T0 a Hok.
+  unfold anneal_gen, anneal_simple, for_loop. cbn [f_init f_start f_finish f_teardown].
+  destruct N as [|N].
+  - destruct td; reflexivity.
+  - change (S N =? 0) with false. cbv iota.
+    rewrite (loop_ok (S N) script a (S N) (S N) 0 T0); try lia.
+    + rewrite blocks_closed_form0. unfold full_trace, prefix, temp_after.
+      change (0 + S N) with (S N).
+      destruct td; cbn [after_teardown app]; rewrite <- !app_assoc; reflexivity.
+    + intros j Hj. apply Hok. lia.
+Qed.
+
 Theorem anneal_ok_run : forall N script T0 a,
   (forall j, 1 <= j <= N -> script j = StepOk) ->
   anneal N script T0 a =
     mkRun (prefix T0 ++ flat_map (iteration_block a T0) (seq 1 N)
              ++ [(EvFinish N, temp_after a T0 N); (ExplorerTearDown, temp_after a T0 N)])
-          N (temp_after a T0 N) Finished.
+          None N (temp_after a T0 N) Finished.
+Proof. intros N script T0 a Hok. exact (anneal_ok_run_td None N script T0 a Hok). Qed.
+
+(* first fault in iteration k <= N, of kind o (carrying payload p); TearDown may panic too *)
+Theorem anneal_fault_run_td : forall td N script T0 a k o p,
+  1 <= k <= N ->
+  (forall j, 1 <= j < k -> script j = StepOk) ->
+  script k = o -> payload_of o = Some p ->
+  anneal_gen SimpleAnnealer (mkFaults InitOk None None td) 0 N script T0 a =
+    recover_handler false (observer_of o)
+      (prefix T0 ++ (flat_map (iteration_block a T0) (seq 1 (pred k)) ++ partial_block a T0 k o)
+         ++ [(ExplorerTearDown, temp_after a T0 (cooled_after k o))])
+      k (temp_after a T0 (cooled_after k o)) (Panicking k (in_flight td p)).
 Proof.
-  intros N script T0 a Hok.
-  unfold anneal, anneal_gen, anneal_simple, for_loop.
-  destruct N as [|N].
-  - reflexivity.
-  - change (S N =? 0) with false. cbv iota.
-    rewrite (loop_ok (S N) script a (S N) (S N) 0 T0); try lia.
-    + rewrite blocks_closed_form0.
-      cbn [recover_handler]. unfold prefix, temp_after.
-      rewrite <- app_assoc. reflexivity.
-    + intros j Hj. apply Hok. lia.
+  intros td N script T0 a k o p Hk Hok Ho Hp.
+  unfold anneal_gen, anneal_simple, for_loop. cbn [f_init f_start f_finish f_teardown].
+  replace (N =? 0) with false by (symmetry; apply Nat.eqb_neq; lia).
+  destruct k as [|k]; [lia|]. cbn [pred].
+  rewrite (loop_fault N script a k N 0 T0 o p); try lia; try assumption.
+  - change (0 + k) with k. rewrite Ho.
+    rewrite blocks_closed_form0.
+    change (Nat.iter k (cool a) T0) with (temp_after a T0 (pred (S k))).
+    rewrite partial_closed_form, temp1_closed_form by lia.
+    unfold prefix. destruct td; reflexivity.
+  - intros j Hj. apply Hok. lia.
 Qed.
 
-(* first fault in iteration k <= N, of kind o (carrying payload p) *)
 Theorem anneal_fault_run : forall N script T0 a k o p,
   1 <= k <= N ->
   (forall j, 1 <= j < k -> script j = StepOk) ->
   script k = o -> payload_of o = Some p ->
   anneal N script T0 a =
-    recover_handler
+    recover_handler false (observer_of o)
       (prefix T0 ++ (flat_map (iteration_block a T0) (seq 1 (pred k)) ++ partial_block a T0 k o)
          ++ [(ExplorerTearDown, temp_after a T0 (cooled_after k o))])
       k (temp_after a T0 (cooled_after k o)) (Panicking k p).
+Proof. intros N script T0 a k o p. exact (anneal_fault_run_td None N script T0 a k o p). Qed.
+
+(* an observer panics on the start event: nothing but TearDown follows *)
+Theorem start_observer_fault_run : forall j p fin td c0 N script T0 a,
+  anneal_gen SimpleAnnealer (mkFaults InitOk (Some (j, p)) fin td) c0 N script T0 a =
+    recover_handler false (Some j) [(ExplorerInit, T0); (EvStart, T0); (ExplorerTearDown, T0)] c0 T0
+      (Panicking c0 (in_flight td p)).
+Proof. intros. destruct td; reflexivity. Qed.
+
+(* an observer panics on the finish event of a fault-free run *)
+Theorem finish_observer_fault_run : forall j p td N script T0 a,
+  (forall i, 1 <= i <= N -> script i = StepOk) ->
+  anneal_gen SimpleAnnealer (mkFaults InitOk None (Some (j, p)) td) 0 N script T0 a =
+    recover_handler false (Some j) (full_trace N T0 a) N (temp_after a T0 N) (Panicking N (in_flight td p)).
 Proof.
-  intros N script T0 a k o p Hk Hok Ho Hp.
-  unfold anneal, anneal_gen, anneal_simple, for_loop.
-  replace (N =? 0) with false by (symmetry; apply Nat.eqb_neq; lia).
-  destruct k as [|k]; [lia|]. cbn [pred].
-  rewrite (loop_fault N script a k N 0 T0 o p); try lia; try assumption.
-  - change (0 + k) with k.
-    rewrite blocks_closed_form0.
-    change (Nat.iter k (cool a) T0) with (temp_after a T0 (pred (S k))).
-    rewrite partial_closed_form, temp1_closed_form by lia.
-    reflexivity.
-  - intros j Hj. apply Hok. lia.
+  intros j p td N script T0 a Hok.
+  unfold anneal_gen, anneal_simple, for_loop. cbn [f_init f_start f_finish f_teardown].
+  destruct N as [|N].
+  - destruct td; reflexivity.
+  - change (S N =? 0) with false. cbv iota.
+    rewrite (loop_ok (S N) script a (S N) (S N) 0 T0); try lia.
+    + rewrite blocks_closed_form0. unfold full_trace, prefix, temp_after.
+      change (0 + S N) with (S N).
+      destruct td; cbn [after_teardown app]; rewrite <- !app_assoc; reflexivity.
+    + intros i Hi. apply Hok. lia.
 Qed.
 
 (* the same, for the two scripts the property talks about *)
@@ -208,7 +260,7 @@ Corollary anneal_no_panic_run : forall N T0 a,
   anneal N no_panic T0 a =
     mkRun (prefix T0 ++ flat_map (iteration_block a T0) (seq 1 N)
              ++ [(EvFinish N, temp_after a T0 N); (ExplorerTearDown, temp_after a T0 N)])
-          N (temp_after a T0 N) Finished.
+          None N (temp_after a T0 N) Finished.
 Proof. intros. apply anneal_ok_run. reflexivity. Qed.
 
 Lemma panic_at_before : forall k o j, j <> k -> panic_at k o j = StepOk.
@@ -220,7 +272,7 @@ Proof. intros k o. unfold panic_at. now rewrite Nat.eqb_refl. Qed.
 Corollary anneal_panic_at_run : forall N T0 a k o p,
   1 <= k <= N -> payload_of o = Some p ->
   anneal N (panic_at k o) T0 a =
-    recover_handler
+    recover_handler false (observer_of o)
       (prefix T0 ++ (flat_map (iteration_block a T0) (seq 1 (pred k)) ++ partial_block a T0 k o)
          ++ [(ExplorerTearDown, temp_after a T0 (cooled_after k o))])
       k (temp_after a T0 (cooled_after k o)) (Panicking k p).
@@ -246,33 +298,50 @@ Proof.
   intros script N. induction N as [|N IH].
   - left. intros j Hj. lia.
   - destruct IH as [IH|(k & p & Hk & Hb & Hp)].
-    + destruct (script (S N)) eqn:E.
+    + assert (Hb : forall j, 1 <= j < S N -> script j = StepOk) by (intros j Hj; apply IH; lia).
+      destruct (script (S N)) as [|p|p|p|jj p|jj p] eqn:E.
       * left. intros j Hj. destruct (Nat.eq_dec j (S N)) as [->|Hne]; [exact E|apply IH; lia].
-      * right. exists (S N), p. repeat split; try lia. intros j Hj. apply IH. lia. now rewrite E.
-      * right. exists (S N), p. repeat split; try lia. intros j Hj. apply IH. lia. now rewrite E.
-      * right. exists (S N), p. repeat split; try lia. intros j Hj. apply IH. lia. now rewrite E.
+      * right. exists (S N), p. rewrite E. repeat split; try lia; assumption.
+      * right. exists (S N), p. rewrite E. repeat split; try lia; assumption.
+      * right. exists (S N), p. rewrite E. repeat split; try lia; assumption.
+      * right. exists (S N), p. rewrite E. repeat split; try lia; assumption.
+      * right. exists (S N), p. rewrite E. repeat split; try lia; assumption.
     + right. exists k, p. repeat split; try lia; assumption.
 Qed.
 
 (* ------------------------------------------------------------------------------------------------ *)
 (* projections of the traces *)
 
-Lemma recover_trace : forall tr c t r,
-  trace (recover_handler tr c t r) =
-  tr ++ match r with Panicking _ PayloadError => [(LogError, t)] | _ => [] end.
+Definition log_suffix (completed : bool) (t : float) (r : body_result) : list stamped :=
+  match r with
+  | Panicking _ PayloadError => [(LogError, t)]
+  | Panicking _ PayloadNil => if completed then [] else [(LogError, t)]
+  | _ => []
+  end.
+
+Lemma recover_trace : forall completed cu tr c t r,
+  trace (recover_handler completed cu tr c t r) = tr ++ log_suffix completed t r.
 Proof.
-  intros tr c t r. destruct r as [|k p|]; try (simpl; now rewrite app_nil_r).
-  destruct p; simpl; try now rewrite app_nil_r. reflexivity.
+  intros completed cu tr c t r. destruct r as [|k p|]; try (simpl; now rewrite app_nil_r).
+  destruct p; try destruct completed; simpl; rewrite ?app_nil_r; reflexivity.
 Qed.
 
-Lemma recover_result : forall tr c t k p,
-  result (recover_handler tr c t (Panicking k p)) =
-  match p with PayloadError => Repanicked k true | PayloadOther => Repanicked k false | PayloadNil => Swallowed k end.
-Proof. intros tr c t k p. destruct p; reflexivity. Qed.
+(* a run that was cut short: EVERY payload is re-raised *)
+Lemma recover_result : forall cu tr c t k p,
+  result (recover_handler false cu tr c t (Panicking k p)) = Repanicked k p.
+Proof. intros cu tr c t k p. destruct p; reflexivity. Qed.
 
-Lemma recover_final : forall tr c t r,
-  final_iteration (recover_handler tr c t r) = c /\ final_temperature (recover_handler tr c t r) = t.
-Proof. intros tr c t r. destruct r as [|k p|]; try destruct p; simpl; auto. Qed.
+(* after a completed run (only TearDown can still panic) *)
+Lemma recover_result_completed : forall cu tr c t k p,
+  result (recover_handler true cu tr c t (Panicking k p)) =
+  match p with PayloadNil => Swallowed k | _ => Repanicked k p end.
+Proof. intros cu tr c t k p. destruct p; reflexivity. Qed.
+
+Lemma recover_final : forall completed cu tr c t r,
+  cut (recover_handler completed cu tr c t r) = cu /\
+  final_iteration (recover_handler completed cu tr c t r) = c /\
+  final_temperature (recover_handler completed cu tr c t r) = t.
+Proof. intros completed cu tr c t r. destruct r as [|k p|]; try destruct p; try destruct completed; simpl; auto. Qed.
 
 Lemma skeleton_of_blocks : forall a T0 l,
   filter is_skeleton_event (map fst (flat_map (iteration_block a T0) l)) =
@@ -286,29 +355,58 @@ Proof.
   f_equal. exact IH.
 Qed.
 
-Lemma skeleton_of_partial : forall a T0 k o p, payload_of o = Some p ->
-  filter is_skeleton_event (map fst (partial_block a T0 k o)) = [EvStartIter k].
-Proof. intros a T0 k o p Hp. destruct o; simpl in Hp; try discriminate; reflexivity. Qed.
+Lemma skeleton_of_partial : forall a T0 k o,
+  filter is_skeleton_event (map fst (partial_block a T0 k o)) = skeleton_of_step k o.
+Proof. intros a T0 k o. destruct o; reflexivity. Qed.
+
+Lemma skeleton_of_log_suffix : forall completed t r,
+  filter is_skeleton_event (map fst (log_suffix completed t r)) = [].
+Proof. intros completed t r. destruct r as [|k p|]; try destruct p; try destruct completed; reflexivity. Qed.
+
+Lemma skeleton_of_full_trace : forall N T0 a,
+  filter is_skeleton_event (map fst (full_trace N T0 a)) = skeleton N.
+Proof.
+  intros N T0 a. unfold full_trace, skeleton.
+  rewrite !map_app, !filter_app, skeleton_of_blocks. reflexivity.
+Qed.
 
 Theorem skeleton_no_panic : forall N script T0 a,
   (forall j, 1 <= j <= N -> script j = StepOk) ->
   skeleton_events (anneal N script T0 a) = skeleton N.
 Proof.
   intros N script T0 a Hok. rewrite (anneal_ok_run N script T0 a Hok).
-  unfold skeleton_events, events, skeleton. cbn [trace].
-  rewrite !map_app, !filter_app, skeleton_of_blocks. reflexivity.
+  unfold skeleton_events, events. cbn [trace]. apply skeleton_of_full_trace.
+Qed.
+
+Theorem skeleton_fault_td : forall td N script T0 a k o p,
+  1 <= k <= N -> (forall j, 1 <= j < k -> script j = StepOk) ->
+  script k = o -> payload_of o = Some p ->
+  skeleton_events (anneal_gen SimpleAnnealer (mkFaults InitOk None None td) 0 N script T0 a) = skeleton_until_fault k o.
+Proof.
+  intros td N script T0 a k o p Hk Hok Ho Hp.
+  rewrite (anneal_fault_run_td td N script T0 a k o p Hk Hok Ho Hp).
+  unfold skeleton_events, events, skeleton_until_fault. rewrite recover_trace.
+  rewrite !map_app, !filter_app, skeleton_of_blocks, skeleton_of_partial, skeleton_of_log_suffix.
+  cbn [prefix map fst filter is_skeleton_event]. rewrite !app_nil_r. reflexivity.
 Qed.
 
 Theorem skeleton_fault : forall N script T0 a k o p,
   1 <= k <= N -> (forall j, 1 <= j < k -> script j = StepOk) ->
   script k = o -> payload_of o = Some p ->
-  skeleton_events (anneal N script T0 a) = skeleton_until_panic k.
+  skeleton_events (anneal N script T0 a) = skeleton_until_fault k o.
+Proof. intros N script T0 a k o p. exact (skeleton_fault_td None N script T0 a k o p). Qed.
+
+(* a completed run whose TearDown panics, or whose finish event makes an observer panic: the whole skeleton was sent *)
+Theorem skeleton_late_fault : forall fin td N script T0 a,
+  (forall j, 1 <= j <= N -> script j = StepOk) ->
+  skeleton_events (anneal_gen SimpleAnnealer (mkFaults InitOk None fin td) 0 N script T0 a) = skeleton N.
 Proof.
-  intros N script T0 a k o p Hk Hok Ho Hp.
-  rewrite (anneal_fault_run N script T0 a k o p Hk Hok Ho Hp).
-  unfold skeleton_events, events, skeleton_until_panic. rewrite recover_trace.
-  rewrite !map_app, !filter_app, skeleton_of_blocks, (skeleton_of_partial _ _ _ _ p Hp).
-  destruct p; cbn [prefix map fst filter is_skeleton_event]; rewrite !app_nil_r; reflexivity.
+  intros fin td N script T0 a Hok. unfold skeleton_events, events.
+  destruct fin as [[j p]|].
+  - rewrite (finish_observer_fault_run j p td N script T0 a Hok), recover_trace.
+    rewrite map_app, filter_app, skeleton_of_full_trace, skeleton_of_log_suffix. apply app_nil_r.
+  - rewrite (anneal_ok_run_td td N script T0 a Hok), recover_trace.
+    rewrite map_app, filter_app, skeleton_of_full_trace, skeleton_of_log_suffix. apply app_nil_r.
 Qed.
 
 (* ------------------------------------------------------------------------------------------------ *)
@@ -327,16 +425,65 @@ Proof.
       cbn [andb]; try reflexivity; try (subst i; reflexivity); lia.
 Qed.
 
+Lemma seen_deliver : forall {A} (m i : nat) (x : event * A), i < m ->
+  map snd (filter (is_for i) (deliver m x)) = if is_observer_event (fst x) then [x] else [].
+Proof.
+  intros A m i x Hi. unfold deliver. destruct (is_observer_event (fst x)); [|reflexivity].
+  rewrite filter_for_seq. replace (0 <=? i) with true by (symmetry; apply Nat.leb_le; lia).
+  replace (i <? 0 + m) with true by (symmetry; apply Nat.ltb_lt; lia). reflexivity.
+Qed.
+
+Lemma seen_deliver_upto : forall {A} (m j i : nat) (x : event * A), i < m ->
+  map snd (filter (is_for i) (deliver_upto m j x)) = if i <=? j then [x] else [].
+Proof.
+  intros A m j i x Hi. unfold deliver_upto. rewrite filter_for_seq.
+  replace (0 <=? i) with true by (symmetry; apply Nat.leb_le; lia). cbn [andb].
+  destruct (Nat.leb_spec i j); destruct (Nat.ltb_spec i (0 + Nat.min m (S j))); try reflexivity; lia.
+Qed.
+
 Theorem seen_by_each : forall {A} (m i : nat) (tr : list (event * A)), i < m ->
   seen_by i (deliveries m tr) = filter (fun x => is_observer_event (fst x)) tr.
 Proof.
   intros A m i tr Hi. unfold seen_by, deliveries.
   induction tr as [|x tr IH]; [reflexivity|].
-  cbn [flat_map]. rewrite filter_app, map_app, IH. unfold deliver at 1.
-  cbn [filter]. destruct (is_observer_event (fst x)).
-  - rewrite filter_for_seq. replace (0 <=? i) with true by (symmetry; apply Nat.leb_le; lia).
-    replace (i <? 0 + m) with true by (symmetry; apply Nat.ltb_lt; lia). reflexivity.
-  - reflexivity.
+  cbn [flat_map]. rewrite filter_app, map_app, IH, (seen_deliver m i x Hi).
+  cbn [filter]. destruct (is_observer_event (fst x)); reflexivity.
+Qed.
+
+Lemma no_observer_event_filter : forall {A} (tr : list (event * A)),
+  has_observer_event tr = false -> filter (fun x => is_observer_event (fst x)) tr = [].
+Proof.
+  intros A tr. induction tr as [|x tr IH]; [reflexivity|].
+  unfold has_observer_event in *. cbn [existsb filter].
+  destruct (is_observer_event (fst x)); [discriminate|]. exact IH.
+Qed.
+
+Lemma observer_event_filter : forall {A} (tr : list (event * A)),
+  has_observer_event tr = true -> filter (fun x => is_observer_event (fst x)) tr <> [].
+Proof.
+  intros A tr. induction tr as [|x tr IH]; [discriminate|].
+  unfold has_observer_event in *. cbn [existsb filter].
+  destruct (is_observer_event (fst x)); [discriminate|]. exact IH.
+Qed.
+
+(* observer j panicked on the last observer event: observers 0..j were handed everything, the others all but that event *)
+Theorem seen_by_cut : forall {A} (m j i : nat) (tr : list (event * A)), i < m ->
+  seen_by i (deliveries_cut m j tr) =
+  if i <=? j then filter (fun x => is_observer_event (fst x)) tr
+  else removelast (filter (fun x => is_observer_event (fst x)) tr).
+Proof.
+  intros A m j i tr Hi. unfold seen_by.
+  induction tr as [|x tr IH]; [destruct (i <=? j); reflexivity|].
+  cbn [deliveries_cut]. rewrite filter_app, map_app, IH. cbn [filter].
+  destruct (is_observer_event (fst x)) eqn:Ex; cbn [andb].
+  - destruct (has_observer_event tr) eqn:Eh; cbn [negb].
+    + rewrite (seen_deliver m i x Hi), Ex.
+      destruct (i <=? j); [reflexivity|].
+      pose proof (observer_event_filter tr Eh) as Hne.
+      destruct (filter (fun x0 => is_observer_event (fst x0)) tr) eqn:Ef; [contradiction|reflexivity].
+    + rewrite (seen_deliver_upto m j i x Hi), (no_observer_event_filter tr Eh).
+      destruct (i <=? j); reflexivity.
+  - rewrite (seen_deliver m i x Hi), Ex. reflexivity.
 Qed.
 
 (* pseudo-events (calls on the explorer, log lines) are delivered to nobody *)
@@ -356,56 +503,116 @@ Qed.
 (* ------------------------------------------------------------------------------------------------ *)
 (* Initialise *)
 
-Theorem init_precedes_start : forall kind c0 N script T0 a,
-  exists rest, trace (anneal_gen kind InitOk c0 N script T0 a) = (ExplorerInit, T0) :: (EvStart, T0) :: rest.
+Theorem init_precedes_start : forall kind fl c0 N script T0 a, f_init fl = InitOk ->
+  exists rest, trace (anneal_gen kind fl c0 N script T0 a) = (ExplorerInit, T0) :: (EvStart, T0) :: rest.
 Proof.
-  intros kind c0 N script T0 a. unfold anneal_gen, anneal_simple.
-  destruct (for_loop N script a c0 T0) as [[[es c] t] r].
-  destruct r as [|k p|]; [|destruct p|]; destruct kind; cbn; eexists; reflexivity.
+  intros kind [ini st fin td] c0 N script T0 a Hi. cbn [f_init] in Hi. subst ini.
+  unfold anneal_gen, anneal_simple. cbn [f_init f_start f_finish f_teardown].
+  destruct st as [[j p]|].
+  - destruct td as [q|]; [destruct q|destruct p]; destruct kind; cbn; eexists; reflexivity.
+  - destruct (for_loop N script a c0 T0) as [[[es c] t] r].
+    destruct r as [|k p|]; [destruct fin as [[j p]|]| |];
+      destruct td as [q|]; try destruct q; try destruct p; destruct kind; cbn; eexists; reflexivity.
 Qed.
 
-Theorem init_panic_run : forall c0 N script T0 a p,
-  anneal_gen SimpleAnnealer (InitPanics p) c0 N script T0 a =
-  recover_handler [(ExplorerInit, T0)] c0 T0 (Panicking c0 p).
-Proof. reflexivity. Qed.
+Theorem init_panic_run : forall fl c0 N script T0 a p, f_init fl = InitPanics p ->
+  anneal_gen SimpleAnnealer fl c0 N script T0 a =
+  recover_handler false None [(ExplorerInit, T0)] c0 T0 (Panicking c0 p).
+Proof. intros fl c0 N script T0 a p H. unfold anneal_gen, anneal_simple. now rewrite H. Qed.
 
 (* ------------------------------------------------------------------------------------------------ *)
 (* the wrapper *)
 
+Theorem elapsed_run_faults : forall fl c0 N script T0 a,
+  let r := anneal_gen SimpleAnnealer fl c0 N script T0 a in
+  let r' := anneal_gen ElapsedTimeTrackingAnnealer fl c0 N script T0 a in
+  result r' = result r /\ final_iteration r' = final_iteration r /\ final_temperature r' = final_temperature r /\
+  cut r' = cut r /\
+  trace r' = trace r ++ match result r with
+                        | Finished | Swallowed _ => [(LogInfo, final_temperature r)]
+                        | _ => []
+                        end.
+Proof.
+  intros fl c0 N script T0 a. cbv zeta. unfold anneal_gen.
+  destruct (result (anneal_simple fl c0 N script T0 a)) eqn:E; cbn [result trace final_iteration final_temperature cut];
+    rewrite ?E, ?app_nil_r; auto.
+Qed.
+
+(* the same with only an Initialise fault (statement kept as it was before observer / TearDown faults were added:
+   ConfigProofs (C19) uses it) *)
 Theorem elapsed_run : forall init c0 N script T0 a,
-  let r := anneal_gen SimpleAnnealer init c0 N script T0 a in
-  let r' := anneal_gen ElapsedTimeTrackingAnnealer init c0 N script T0 a in
+  let r := anneal_gen SimpleAnnealer (init_faults init) c0 N script T0 a in
+  let r' := anneal_gen ElapsedTimeTrackingAnnealer (init_faults init) c0 N script T0 a in
   result r' = result r /\ final_iteration r' = final_iteration r /\ final_temperature r' = final_temperature r /\
   trace r' = trace r ++ match result r with
                         | Finished | Swallowed _ => [(LogInfo, final_temperature r)]
                         | _ => []
                         end.
 Proof.
-  intros init c0 N script T0 a. cbv zeta. unfold anneal_gen.
-  destruct (result (anneal_simple init c0 N script T0 a)) eqn:E; cbn [result trace final_iteration final_temperature];
-    rewrite ?E, ?app_nil_r; auto.
+  intros init c0 N script T0 a. cbv zeta.
+  destruct (elapsed_run_faults (init_faults init) c0 N script T0 a) as (H1 & H2 & H3 & _ & H5). auto.
 Qed.
 
 (* ------------------------------------------------------------------------------------------------ *)
-(* fuel *)
+(* fuel, and the one way left to return normally from a run that panicked *)
 
-Theorem anneal_never_out_of_fuel : forall kind init c0 N script T0 a,
-  result (anneal_gen kind init c0 N script T0 a) <> OutOfFuel.
+Lemma after_teardown_fuel : forall td c r, r <> FuelExhausted -> after_teardown td c r <> FuelExhausted.
+Proof. intros td c r H. destruct td; destruct r; simpl; congruence. Qed.
+
+Lemma recover_not_out_of_fuel : forall completed cu tr c t r,
+  r <> FuelExhausted -> result (recover_handler completed cu tr c t r) <> OutOfFuel.
 Proof.
-  intros kind init c0 N script T0 a.
-  assert (H : result (anneal_simple init c0 N script T0 a) <> OutOfFuel).
-  { unfold anneal_simple. destruct init as [|p].
-    - unfold for_loop. destruct (N =? 0) eqn:E.
-      + simpl. discriminate.
-      + apply Nat.eqb_neq in E.
-        pose proof (loop_fuel_enough N script a N c0 T0 ltac:(lia) ltac:(lia)) as F.
-        destruct (loop N script a N c0 T0) as [[[es c] t] r]. simpl in F.
-        destruct r as [|k p|]; [simpl; discriminate| |contradiction].
-        rewrite recover_result. destruct p; discriminate.
-    - rewrite recover_result. destruct p; discriminate. }
+  intros completed cu tr c t r H. destruct r as [|k p|]; [simpl; discriminate| |contradiction].
+  destruct p; try destruct completed; simpl; discriminate.
+Qed.
+
+Theorem anneal_never_out_of_fuel : forall kind fl c0 N script T0 a,
+  result (anneal_gen kind fl c0 N script T0 a) <> OutOfFuel.
+Proof.
+  intros kind [ini st fin td] c0 N script T0 a.
+  assert (H : result (anneal_simple (mkFaults ini st fin td) c0 N script T0 a) <> OutOfFuel).
+  { unfold anneal_simple. cbn [f_init f_start f_finish f_teardown]. destruct ini as [|p].
+    - destruct st as [[j p]|].
+      + apply recover_not_out_of_fuel, after_teardown_fuel. discriminate.
+      + assert (F : snd (for_loop N script a c0 T0) <> FuelExhausted).
+        { unfold for_loop. destruct (N =? 0) eqn:E; [simpl; discriminate|].
+          apply Nat.eqb_neq in E. apply loop_fuel_enough; lia. }
+        destruct (for_loop N script a c0 T0) as [[[es c] t] r]. simpl in F.
+        destruct r as [|k p|]; [destruct fin as [[j p]|]| |contradiction];
+          apply recover_not_out_of_fuel, after_teardown_fuel; discriminate.
+    - apply recover_not_out_of_fuel. discriminate. }
   unfold anneal_gen. destruct kind; [exact H|].
-  destruct (result (anneal_simple init c0 N script T0 a)) eqn:E; cbn [result]; rewrite ?E; try discriminate.
+  destruct (result (anneal_simple (mkFaults ini st fin td) c0 N script T0 a)) eqn:E; cbn [result]; rewrite ?E; try discriminate.
   contradiction.
+Qed.
+
+Lemma recover_swallowed : forall completed cu tr c t r k,
+  result (recover_handler completed cu tr c t r) = Swallowed k ->
+  completed = true /\ r = Panicking k PayloadNil.
+Proof.
+  intros completed cu tr c t r k H. destruct r as [|k' p|]; try discriminate.
+  destruct p; try destruct completed; simpl in H; try discriminate. inversion H. auto.
+Qed.
+
+(* Anneal() returns normally from a run in which something panicked ONLY when TearDown does panic(nil)
+   and nothing else had panicked (by anneal_fault_run_td a fault in an iteration is never swallowed either) *)
+Theorem swallowed_only_if : forall kind fl c0 N script T0 a k,
+  result (anneal_gen kind fl c0 N script T0 a) = Swallowed k ->
+  f_teardown fl = Some PayloadNil /\ f_init fl = InitOk /\ f_start fl = None /\ f_finish fl = None.
+Proof.
+  intros kind [ini st fin td] c0 N script T0 a k H.
+  assert (Hs : result (anneal_simple (mkFaults ini st fin td) c0 N script T0 a) = Swallowed k).
+  { unfold anneal_gen in H. destruct kind; [exact H|].
+    destruct (result (anneal_simple (mkFaults ini st fin td) c0 N script T0 a)) eqn:E; cbn [result] in H; congruence. }
+  clear H. revert Hs. unfold anneal_simple. cbn [f_init f_start f_finish f_teardown].
+  destruct ini as [|p]; [|intro Hs; apply recover_swallowed in Hs; destruct Hs; discriminate].
+  destruct st as [[j p]|]; [intro Hs; apply recover_swallowed in Hs; destruct Hs; discriminate|].
+  destruct (for_loop N script a c0 T0) as [[[es c] t] r].
+  destruct r as [|k' p|].
+  - destruct fin as [[j p]|]; intro Hs; pose proof (recover_swallowed _ _ _ _ _ _ _ Hs) as (Hc & Hr); [discriminate|].
+    destruct td as [q|]; simpl in Hr; [|discriminate]. inversion Hr; subst. repeat split; auto.
+  - intro Hs. apply recover_swallowed in Hs. destruct Hs; discriminate.
+  - intro Hs. apply recover_swallowed in Hs. destruct Hs; discriminate.
 Qed.
 
 (* ------------------------------------------------------------------------------------------------ *)
@@ -414,16 +621,16 @@ Qed.
 
 Theorem reanneal_runs_one_iteration : forall c0 N script T0 a,
   1 <= N -> N <= c0 -> script (S c0) = StepOk ->
-  anneal_gen SimpleAnnealer InitOk c0 N script T0 a =
+  anneal_gen SimpleAnnealer no_faults c0 N script T0 a =
     mkRun (prefix T0 ++ block1 a (S c0) T0 ++ [(EvFinish (S c0), cool a T0); (ExplorerTearDown, cool a T0)])
-          (S c0) (cool a T0) Finished.
+          None (S c0) (cool a T0) Finished.
 Proof.
   intros c0 N script T0 a H1 H2 Hs.
-  unfold anneal_gen, anneal_simple, for_loop.
+  unfold anneal_gen, anneal_simple, for_loop. cbn [no_faults f_init f_start f_finish f_teardown].
   replace (N =? 0) with false by (symmetry; apply Nat.eqb_neq; lia).
   rewrite (loop_ok N script a 1 N c0 T0); try lia.
-  - replace (c0 + 1) with (S c0) by lia. cbn [blocks Nat.iter nat_rect recover_handler].
-    rewrite app_nil_r. unfold prefix. rewrite <- app_assoc. reflexivity.
+  - replace (c0 + 1) with (S c0) by lia. cbn [blocks Nat.iter nat_rect recover_handler after_teardown].
+    rewrite app_nil_r. unfold prefix. cbn [app]. rewrite <- !app_assoc. reflexivity.
   - intros j Hj. replace j with (S c0) by lia. exact Hs.
 Qed.
 
@@ -439,6 +646,12 @@ Proof.
   rewrite map_app, filter_app, app_length, Hn.
   change (length (k :: l)) with (S (length l)).
   rewrite Nat.mul_succ_r, Nat.add_comm. f_equal. exact IH.
+Qed.
+
+Lemma count_in_log_suffix : forall p completed t r, p LogError = false ->
+  length (filter p (map fst (log_suffix completed t r))) = 0.
+Proof.
+  intros p completed t r Hp. destruct r as [|k q|]; try destruct q; try destruct completed; simpl; rewrite ?Hp; reflexivity.
 Qed.
 
 Theorem counts_no_fault : forall N script T0 a,
@@ -457,50 +670,77 @@ Proof.
   rewrite seq_length. cbn. repeat split; lia.
 Qed.
 
-Theorem counts_fault : forall N script T0 a k o p,
+Theorem counts_fault_td : forall td N script T0 a k o p,
   1 <= k <= N -> (forall j, 1 <= j < k -> script j = StepOk) ->
   script k = o -> payload_of o = Some p ->
-  let r := anneal N script T0 a in
-  count is_try r = k /\
-  count is_cool r = match o with PanicInTry _ => pred k | _ => k end /\
+  let r := anneal_gen SimpleAnnealer (mkFaults InitOk None None td) 0 N script T0 a in
+  count is_try r = match o with PanicInStartObserver _ _ => pred k | _ => k end /\
+  count is_cool r = match o with PanicInTry _ | PanicInStartObserver _ _ => pred k | _ => k end /\
   count is_teardown r = 1 /\ count is_finish r = 0 /\
-  final_iteration r = k /\ final_temperature r = temp_after a T0 (cooled_after k o).
+  final_iteration r = k /\ final_temperature r = temp_after a T0 (cooled_after k o) /\
+  cut r = observer_of o.
 Proof.
-  intros N script T0 a k o p Hk Hok Ho Hp. cbv zeta.
-  rewrite (anneal_fault_run N script T0 a k o p Hk Hok Ho Hp).
-  destruct (recover_final
+  intros td N script T0 a k o p Hk Hok Ho Hp. cbv zeta.
+  rewrite (anneal_fault_run_td td N script T0 a k o p Hk Hok Ho Hp).
+  destruct (recover_final false (observer_of o)
               (prefix T0 ++ (flat_map (iteration_block a T0) (seq 1 (pred k)) ++ partial_block a T0 k o)
                  ++ [(ExplorerTearDown, temp_after a T0 (cooled_after k o))])
-              k (temp_after a T0 (cooled_after k o)) (Panicking k p)) as (F1 & F2).
-  rewrite F1, F2. unfold count, events. rewrite recover_trace.
+              k (temp_after a T0 (cooled_after k o)) (Panicking k (in_flight td p))) as (F0 & F1 & F2).
+  rewrite F0, F1, F2. unfold count, events. rewrite recover_trace.
   rewrite !map_app, !filter_app, !app_length.
+  rewrite !count_in_log_suffix by reflexivity.
   rewrite (count_in_blocks is_try _ _ _ 1) by (intro; reflexivity).
   rewrite (count_in_blocks is_cool _ _ _ 1) by (intro; reflexivity).
   rewrite (count_in_blocks is_teardown _ _ _ 0) by (intro; reflexivity).
   rewrite (count_in_blocks is_finish _ _ _ 0) by (intro; reflexivity).
   rewrite seq_length.
-  destruct o; simpl in Hp; try discriminate; destruct p; cbn; repeat split; lia.
+  destruct o; simpl in Hp; try discriminate; cbn; repeat split; lia.
 Qed.
+
+Theorem counts_fault : forall N script T0 a k o p,
+  1 <= k <= N -> (forall j, 1 <= j < k -> script j = StepOk) ->
+  script k = o -> payload_of o = Some p ->
+  let r := anneal N script T0 a in
+  count is_try r = match o with PanicInStartObserver _ _ => pred k | _ => k end /\
+  count is_cool r = match o with PanicInTry _ | PanicInStartObserver _ _ => pred k | _ => k end /\
+  count is_teardown r = 1 /\ count is_finish r = 0 /\
+  final_iteration r = k /\ final_temperature r = temp_after a T0 (cooled_after k o) /\
+  cut r = observer_of o.
+Proof. intros N script T0 a k o p. exact (counts_fault_td None N script T0 a k o p). Qed.
 
 (* ------------------------------------------------------------------------------------------------ *)
-(* re-raising *)
+(* re-raising: EVERY panic of an iteration comes out of Anneal(); if TearDown panics too, TearDown's does *)
 
-Theorem panic_nil_swallowed_witness : exists N k o T0 a,
-  1 <= k <= N /\ payload_of o <> None /\
-  result (anneal N (panic_at k o) T0 a) = Swallowed k /\ count is_finish (anneal N (panic_at k o) T0 a) = 0.
+Theorem panic_reraised_td : forall td N script T0 a k o p,
+  1 <= k <= N -> (forall j, 1 <= j < k -> script j = StepOk) ->
+  script k = o -> payload_of o = Some p ->
+  result (anneal_gen SimpleAnnealer (mkFaults InitOk None None td) 0 N script T0 a) = Repanicked k (in_flight td p).
 Proof.
-  exists 2, 1, (PanicInTry PayloadNil), 100%float, 0.5%float. vm_compute.
-  repeat split; try lia; discriminate.
+  intros td N script T0 a k o p Hk Hok Ho Hp.
+  rewrite (anneal_fault_run_td td N script T0 a k o p Hk Hok Ho Hp). apply recover_result.
 Qed.
 
-Theorem panic_reraised_nonnil : forall N script T0 a k o p,
+Theorem panic_reraised : forall N script T0 a k o p,
   1 <= k <= N -> (forall j, 1 <= j < k -> script j = StepOk) ->
-  script k = o -> payload_of o = Some p -> p <> PayloadNil ->
-  result (anneal N script T0 a) = Repanicked k (match p with PayloadError => true | _ => false end).
+  script k = o -> payload_of o = Some p ->
+  result (anneal N script T0 a) = Repanicked k p.
+Proof. intros N script T0 a k o p. exact (panic_reraised_td None N script T0 a k o p). Qed.
+
+(* a fault-free run whose TearDown panics (or whose finish event makes an observer panic) *)
+Theorem late_fault_result : forall fin td N script T0 a,
+  (forall j, 1 <= j <= N -> script j = StepOk) ->
+  result (anneal_gen SimpleAnnealer (mkFaults InitOk None fin td) 0 N script T0 a) =
+  match fin, td with
+  | Some (_, p), _ => Repanicked N (in_flight td p)          (* cut short: the finish call never returned *)
+  | None, Some PayloadNil => Swallowed N                     (* completed, and recover() reports nil *)
+  | None, Some q => Repanicked N q
+  | None, None => Finished
+  end.
 Proof.
-  intros N script T0 a k o p Hk Hok Ho Hp Hnil.
-  rewrite (anneal_fault_run N script T0 a k o p Hk Hok Ho Hp), recover_result.
-  destruct p; congruence.
+  intros fin td N script T0 a Hok. destruct fin as [[j p]|].
+  - rewrite (finish_observer_fault_run j p td N script T0 a Hok). apply recover_result.
+  - rewrite (anneal_ok_run_td td N script T0 a Hok). destruct td as [q|]; [|reflexivity].
+    rewrite recover_result_completed. destruct q; reflexivity.
 Qed.
 
 Theorem temp_recurrence : forall a T0 k,
